@@ -627,7 +627,11 @@ def h2g_case(rng, shape):
     if width == 1 + dim and mv is None and r < 0.3:
         names = {"t": COORD_NAMES[:dim] + ["y" if dim == 1 else "val"]}
     sc = rng.choice([None, None, True, "5", "0"])
-    return {"op": "h2g", "h": hc, "mv": mv, "mode": mode, "fields": names, "scale": sc}
+    c = {"op": "h2g", "h": hc, "mv": mv, "mode": mode, "fields": names, "scale": sc}
+    if dim == 1 and rng.random() < 0.25:
+        # the call with every argument left at its default: hist_to_graph(hist) / HistToGraph()
+        c.update(mv=None, mode="left", fields={"t": ["x", "y"]}, scale=None, defaults=True)
+    return c
 
 
 def all_namings():
@@ -1041,12 +1045,20 @@ def graph_add_case(rng):
     return {"op": "graph_add", "a": a, "b": b}
 
 
+def _csv_defaults(c):
+    """ToCSV() with every argument left at its default"""
+    if c.get("defaults"):
+        c.update(sep=",", header=None, row_end="", last_row_end="", dup=True)
+    return c
+
+
 def csv_case(rng, shape):
     hc = gen_hist(rng, shape)
-    return {"op": "csv", "h": hc, "to_csv": rng.random() > 0.08, "ctx_dup": rng.choice([None, None, True, False]),
+    return _csv_defaults({"op": "csv", "h": hc, "to_csv": rng.random() > 0.08, "ctx_dup": rng.choice([None, None, True, False]),
             "dup": rng.random() < 0.5, "header": rng.choice([None, None, "", "x,y", "# head"]),
             "sep": rng.choice([",", ",", ";", " ", "\t"]), "row_end": rng.choice(["", "", " \\\\"]),
-            "last_row_end": rng.choice(["", "", " \\\\", "\n"]), "pair": rng.random() < 0.8}
+            "last_row_end": rng.choice(["", "", " \\\\", "\n"]), "pair": rng.random() < 0.8,
+            **({"defaults": True} if rng.random() < 0.15 else {})})
 
 
 def gen_hist_pow2(rng, shape):
@@ -1437,7 +1449,10 @@ def run_impl(case):
         sc = case["scale"]
         scale = sc if (sc is None or sc is True) else pynum(sc, "int")
         try:
-            g = hf.hist_to_graph(h, make_value=_mv(case["mv"]), get_coordinate=case["mode"], field_names=fn, scale=scale)
+            if case.get("defaults"):
+                g = hf.hist_to_graph(h)
+            else:
+                g = hf.hist_to_graph(h, make_value=_mv(case["mv"]), get_coordinate=case["mode"], field_names=fn, scale=scale)
         except Exception as ex:
             return _exc(ex)
         return {"g": graph_state(g), "rows": [[enc(x) for x in row] for row in g], "hscale":
@@ -1631,7 +1646,7 @@ def run_impl(case):
         if case.get("ctx_dup") is not None:
             ctx.setdefault("output", {})["duplicate_last_bin"] = case["ctx_dup"]
         val = (data, ctx) if case.get("pair", True) or ctx else data
-        el = lena.output.ToCSV(**el_kw)
+        el = lena.output.ToCSV() if (case.get("defaults") and op != "csv_graph") else lena.output.ToCSV(**el_kw)
         with warnings.catch_warnings():
             warnings.simplefilter("ignore")
             try:
@@ -1692,7 +1707,10 @@ def run_impl(case):
         else:
             mv = lena.variables.Variable("val", _mv(mvn))
         try:
-            el = lena.structures.HistToGraph(make_value=mv, get_coordinate=case["mode"], field_names=fn, scale=scale)
+            if case.get("defaults") and mvn is None:
+                el = lena.structures.HistToGraph()
+            else:
+                el = lena.structures.HistToGraph(make_value=mv, get_coordinate=case["mode"], field_names=fn, scale=scale)
         except Exception as ex:
             return {"e": exc_name(ex), "phase": "init"}
         data = h if case["is_hist"] else 7
